@@ -16,7 +16,7 @@ import sys
 from vlib import common
 
 LEVEL = "exploration"
-VALS = [0.0, 1.0, -2.5, 1e-3, 123456.789, 3]
+VALS = [0.0, 1.0, -2.5, 1e-3, 123456.789, 3, 1.6e-19, -1e-6 / 3, 2.5e-15]
 
 
 def table_worker(task):
@@ -151,6 +151,28 @@ def table_worker(task):
                         except Exception as ex:  # noqa
                             bad.append(("arith-raised", name, u, u2,
                                         type(ex).__name__))
+        # running totals: each sum is the sum of the SI values of its operands,
+        # also when the left operand is itself the result of earlier sums or
+        # differences
+        for u in pairs_u2:
+            for step, u3 in ((0.1, u), (0.3, ulist[0]), (1.1, ulist[-1])):
+                try:
+                    t = q(0.0, u)
+                    dt = q(step, u3)
+                    for i in range(12):
+                        n += 1
+                        t2 = t + dt if i % 4 != 3 else t - dt
+                        want = t.si + dt.si if i % 4 != 3 else t.si - dt.si
+                        twin = q(t.si, q._baseunit).as_unit(u)
+                        tw2 = twin + dt if i % 4 != 3 else twin - dt
+                        if t2.si != want or tw2.si != want or t2.unit != u:
+                            bad.append(("running-total", name, u, (step, u3),
+                                        i, t2.si, want, tw2.si))
+                            break
+                        t = t2
+                except Exception as ex:  # noqa
+                    bad.append(("running-total-raised", name, u,
+                                type(ex).__name__))
         try:
             q(1.0, "no-such-unit")
             bad.append(("unknown-unit-accepted", name))
